@@ -1,7 +1,7 @@
 """C02 - instant <-> civil datetime under a fixed offset (narrow)."""
 from ..rules_shape import floor_a, const_agree, req_dep, split_pipeline
 from ..rules_dep import run_dep
-from ..rules_signpair import run_signpair
+from ..rules_signpair import run_signpair, run_minpair
 from ..rules_contract import public_precond
 from ..rules_tz import floor_print
 
@@ -9,6 +9,7 @@ from ..rules_tz import floor_print
 def run(ctx, rep):
     run_dep(ctx, rep, "C02")
     run_signpair(ctx, rep)
+    run_minpair(ctx, rep)
     prog = ctx.prog("Q")
     rep.notes.append("Does not decide exactness of the decomposition for all values.")
     floor_a(ctx, rep)
